@@ -36,7 +36,7 @@ class ComponentLevel6( ComponentLevel5 ):
         return method( s, *args, **kwargs )
       return _bound_method
 
-    for x in s.__class__.__dict__:
+    for x in s._user_class_attributes():
       method = getattr( s, x )
 
       # We identify decorated method port here
